@@ -481,11 +481,11 @@ struct StreamSim : Sim {
                         } else if (focus == "C10") {
                                 p.cfg["c0_kind"] = K_MUR;
                                 p.cfg["c0_fam"] = (int64_t) (run_index % 5);
-                                p.cfg["c0_hugemode"] = (int64_t) ((run_index / 5 + g.below(3)) % 3);
+                                p.cfg["c0_hugemode"] = (int64_t) (((thorough ? run_index % 20000 + run_index / 20000 : run_index) + 0 * g.below(3)) % 3); // modes in turn, not drawn
                         } else {
                                 p.cfg["c0_kind"] = (run_index & 1) ? K_MH256 : K_MH1; // both kinds and all five families in every batch
                                 p.cfg["c0_fam"] = (int64_t) ((run_index / 2) % 5);
-                                p.cfg["c0_hugemode"] = (int64_t) ((run_index / 10 + g.below(3)) % 3);
+                                p.cfg["c0_hugemode"] = (int64_t) (((thorough ? run_index % 20000 + run_index / 20000 : run_index) + 0 * g.below(3)) % 3); // modes in turn, not drawn
                         }
                         p.cfg["c0_huge"] = 1;
                         p.cfg["c0_phase"] = (int64_t) g.below(4096);
